@@ -1,13 +1,13 @@
 package main
 
 import (
-	"strings"
-	"path"
 	"fmt"
 	"go/constant"
 	"go/token"
 	"go/types"
+	"path"
 	"sort"
+	"strings"
 
 	"golang.org/x/tools/go/ssa"
 )
@@ -30,7 +30,7 @@ type absStruct struct{ fields map[int]absVal }
 var absTop = absVal{top: true}
 
 func absConst(c constant.Value) absVal { return absVal{vals: []constant.Value{c}} }
-func absBool(b bool) absVal           { return absConst(constant.MakeBool(b)) }
+func absBool(b bool) absVal            { return absConst(constant.MakeBool(b)) }
 
 func (a absVal) isTop() bool { return a.top || (len(a.vals) == 0 && a.obj == nil) }
 
@@ -115,8 +115,8 @@ type evalResult struct {
 	Calls   map[ssa.CallInstruction]bool // reachable calls, including in evaluated callees
 	Returns []absVal                     // join per result index over reachable returns
 	RetInst map[*ssa.Return]bool
-	Eval    func(ssa.Value) absVal           // value of an instruction of the evaluated function in the final state
-	Edges   map[[2]*ssa.BasicBlock]bool      // reachable control-flow edges
+	Eval    func(ssa.Value) absVal      // value of an instruction of the evaluated function in the final state
+	Edges   map[[2]*ssa.BasicBlock]bool // reachable control-flow edges
 }
 
 type evaluator struct {
